@@ -41,12 +41,21 @@ CLAIMS = {
         "Process objects, pipeline.resume, signals and terminal hand-over are stubs/recorders; multi-id disown is outside the alphabet; whether disown purges finished jobs first is not constrained.",
         "DESIGN.md §3 C20",
     ),
+    "C12": (
+        "model_checking",
+        "exhaustive enumeration of append/flush/clear histories on the real JSON and SQLite back ends (reference list, sandwich oracle) + preemption-bounded exploration of the real flusher threads under a controlled scheduler",
+        "seqx+pysched",
+        "All operation histories up to depth 4 (thorough 5) over an index-arithmetic text alphabet, for JSON buffer sizes 1..3 and SQLite, under every subset of {ignoredups, ignoreerr, ignorespace}, are executed on the real back ends; after every operation len, every index (valid and the two adjacent invalid ones), negative indices, slices, History[i]/[a:b], items() and the on-disk decode through the LazyJSON index (or SQL rows) are compared with a reference list. The real JsonHistoryFlusher threads and the queue/condition ticket protocol are explored under all schedules with <= 2 (thorough 3) preemptions.",
+        "Timestamps identify entries; the ignoredups rule is read leniently (nearest earlier command, also across clear); line-level atomicity in the scheduler; threading.Condition is replaced by a cooperative equivalent; SQLite and items() compare modulo trailing whitespace.",
+        "DESIGN.md §3 C12",
+    ),
 }
 
 NOT_YET = "check not built yet (work in progress in this round; see DESIGN.md §3 for the planned exploration)"
 
 ENGINES = [
-    {"name": "seqx", "path": "xv/seqx.py", "serves_properties": ["C11", "C16", "C20"], "kind_free_text": "explicit-state breadth-first search whose transitions call the real entry points on a freshly replayed implementation; canonical state hashing; lock-step reference"},
+    {"name": "pysched", "path": "xv/pysched.py", "serves_properties": ["C11", "C12"], "kind_free_text": "stateless preemption-bounded exploration of real CPython threads: baton scheduler, line-event scheduling points in named functions, cooperative Lock/Condition/sleep/join shims, DFS over choice prefixes with replay-divergence detection"},
+    {"name": "seqx", "path": "xv/seqx.py", "serves_properties": ["C11", "C12", "C16", "C20"], "kind_free_text": "explicit-state breadth-first search whose transitions call the real entry points on a freshly replayed implementation; canonical state hashing; lock-step reference"},
     {"name": "gramx", "path": "xv/", "serves_properties": ["C15"], "kind_free_text": "bounded-exhaustive enumeration of structured inputs run through the real implementation, compared with a reference"},
 ]
 
